@@ -81,6 +81,64 @@ def c03a(prog, rep):
     rep.floor(R, "blank tests in the line-comment normaliser", len(guards), 1)
 
 
+TRAILING_TRIMMERS = ("trim_ascii_end", "trim_end", "trim_ascii", "trim", "trim_end_matches", "trim_right", "trim_right_matches")
+TRANSPARENT_VIEWS = ("chars", "bytes", "as_bytes", "char_indices", "deref", "iter", "into_iter", "as_str", "as_ref", "borrow")
+PREFIX_ONLY = ("next", "first", "starts_with", "strip_prefix", "split_at_checked", "first_chunk", "split_first")
+
+
+def c03j(prog, rep):
+    """C03.j — the line-comment normaliser removes trailing blanks and inserts a blank after the slashes unless a test on the comment's
+    text says otherwise (it is a separator line ..).  For the result to be a fixpoint, such a test gives the same answer for the text
+    as it is and for the text as the normaliser leaves it: in every bool helper of the normaliser that takes the comment text, a
+    property of the whole text (its length, all its characters, its end) is measured on the text with the trailing blanks removed
+    (`trim_ascii_end` ..); the untrimmed text is only trimmed, or looked at from the front (`chars().next()`, `starts_with`).  A length
+    threshold taken before trimming accepts `//-----     ` as a separator in the first run and not `//-----` in the second."""
+    R = "C03.j"
+    b = prog.body(CC + "format_line_comment")
+    if not rep.check(b is not None, R, "anchor:format_line_comment", "format_line_comment not found"):
+        return
+    fam = [x for x in prog.bodies.values() if x.npath.startswith(b.npath + "::")]
+    for c in b.calls():
+        cb = prog.body(norm(c.t.get("resolved") or c.callee or ""))
+        if cb is not None and cb.npath.startswith(CC) and cb not in fam and cb is not b:
+            fam.append(cb)
+            fam += [x for x in prog.bodies.values() if x.npath.startswith(cb.npath + "::")]
+    trims = [c for c in b.calls() if (c.callee or "").split("::")[-1] in TRAILING_TRIMMERS]
+    if not rep.check(bool(trims), R, "anchor:trailing-trim", "the line-comment normaliser no longer removes trailing blanks (the rule is about tests that must agree with that)"):
+        return
+    n = 0
+    for x in fam:
+        sp = [i for i in range(1, x.arg_count + 1) if re.match(r"^&('\w+ )?str$", x.locals[i]["ty"])]
+        if x.locals[0]["ty"] != "bool" or len(sp) != 1:
+            continue
+        n += 1
+        arg = "arg%d" % sp[0]
+        # the helper may be handed the text already trimmed: then every call site passes a trimmed value
+        sites = [c for c in prog.who_calls(x.npath) if c.body.crate.startswith("pasfmt") and len(c.args) >= sp[0]]
+        if sites and all(re.search(r"\b(%s)\(" % "|".join(TRAILING_TRIMMERS), canon(c.body, c.args[sp[0] - 1])) for c in sites):
+            rep.ok(R, {"helper": short(x.npath), "receives": "the text without its trailing blanks at all %d call sites" % len(sites)})
+            continue
+        bad = []
+        for c in x.calls():
+            nm = (c.callee or "").split("::")[-1]
+            for a in c.args:
+                t = canon(x, a)
+                if not re.search(r"\b%s\b" % arg, t):
+                    continue
+                if re.search(r"\b(%s)\(" % "|".join(TRAILING_TRIMMERS), t):
+                    continue                                     # measured on the text without its trailing blanks
+                if re.search(r"\b(%s)\(" % "|".join(PREFIX_ONLY), t) or nm in PREFIX_ONLY:
+                    continue                                     # looks at the front only / derived from what was seen there
+                if nm in TRAILING_TRIMMERS or nm in TRANSPARENT_VIEWS:
+                    continue
+                bad.append("%s(%s)" % (nm, t[:40]))
+        rep.check(not bad, R, "whole-text-tests-on-the-trimmed-text:%s" % short(x.npath),
+                  "%s decides about the comment by %s on the text that still has its trailing blanks, which the same normaliser removes: the answer can differ for its own output "
+                  "(`//-----     ` is a separator in the first run, `//-----` is not in the second, which inserts a blank)" % (short(x.npath), bad[:3]),
+                  where="%s:%d" % (x.file, x.line), instance={"helper": short(x.npath), "untrimmed_whole_text_measures": bad[:4]})
+    rep.floor(R, "bool helpers of the line-comment normaliser that take the comment text", n, 1)
+
+
 def c03c(prog, rep):
     R = "C03.c"
     mf = prog.body("pasfmt::make_formatter")
@@ -128,6 +186,7 @@ def check_c03(prog, rep, tier, cfg):
     import layout
     import orch
     c03a(prog, rep)
+    c03j(prog, rep)
     # C03.b — `unchanged` is exact equality of (decoded input, formatter output), in files mode and in check mode
     orch.unchanged_skip_is_exact(prog, rep, "C03.b")
     orch.c16e(prog, AliasReport(rep, [("C16.e", r"^check_formatting:table|compares-input-with-output|^anchor:check", "C03.b")]))
